@@ -942,3 +942,13 @@ func deferredIn(fn *ssa.Function) *ssa.Function {
 	}
 	return nil
 }
+
+// paramIndex: position of prm in fn.Params (receiver included), -1 if not a parameter of fn.
+func paramIndex(fn *ssa.Function, prm *ssa.Parameter) int {
+	for i, q := range fn.Params {
+		if q == prm {
+			return i
+		}
+	}
+	return -1
+}
